@@ -5,6 +5,7 @@ package f3
 import (
 	"context"
 
+	"github.com/filecoin-project/go-f3/certs"
 	"github.com/filecoin-project/go-f3/certstore"
 	"github.com/filecoin-project/go-f3/ec"
 	"github.com/filecoin-project/go-f3/gpbft"
@@ -28,4 +29,24 @@ func (v *VerifInputs) GetProposal(ctx context.Context, instance uint64) (*gpbft.
 
 func (v *VerifInputs) GetCommittee(ctx context.Context, instance uint64) (*gpbft.Committee, error) {
 	return v.in.GetCommittee(ctx, instance)
+}
+
+// VerifHost is the node's gpbft host reduced to what saving a decision needs (consensus inputs,
+// certificate store, verifier, manifest): no network, no participant.
+type VerifHost struct{ h *gpbftHost }
+
+func VerifNewHost(ctx context.Context, m manifest.Manifest, cs *certstore.Store, backend ec.Backend, v gpbft.Verifier, clk clock.Clock) *VerifHost {
+	r := &gpbftRunner{certStore: cs, manifest: m, ec: backend, verifier: v, clock: clk, runningCtx: ctx,
+		inputs: newInputs(m, cs, backend, v, clk)}
+	return &VerifHost{h: (*gpbftHost)(r)}
+}
+
+// SaveDecision is what ReceiveDecision does with a reported decision: build the certificate with
+// the power-table delta towards the next committee, validate it, store it.
+func (v *VerifHost) SaveDecision(ctx context.Context, d *gpbft.Justification) (*certs.FinalityCertificate, error) {
+	return v.h.saveDecision(ctx, d)
+}
+
+func (v *VerifHost) GetProposal(ctx context.Context, instance uint64) (*gpbft.SupplementalData, *gpbft.ECChain, error) {
+	return v.h.GetProposal(ctx, instance)
 }
